@@ -35,6 +35,7 @@ Next ==
   /\ LET e == Trace[l] IN
      CASE e.op = "pop"   -> stack' = SubSeq(stack, 1, Len(stack) - 1)
        [] e.op = "reset" -> stack' = <<Root>>
+       [] e.op = "hang"  -> UNCHANGED stack /\ Chk(FALSE, "c17_filter_call_did_not_return")   \* no line for 30 s
        [] e.op = "recv" ->
             LET m    == [id |-> Len(Top.log) + 1, h |-> e.h, inst |-> e.inst, self |-> e.self,
                          guar |-> e.inst = "me" /\ ~e.self /\ e.h > Top.spec.cur]
